@@ -339,6 +339,20 @@ func (c *EvalCtx) eval(e *Expr) *V {
 			n2.old = n.old
 		}
 		body := n2.boolOf(e.Args[0])
+		if len(e.Trig) > 0 {
+			var pats []string
+			for _, grp := range e.Trig {
+				var ts []string
+				for _, te := range grp {
+					tv := n2.eval(te)
+					for _, l := range leavesSorted(tv) {
+						ts = append(ts, l[0])
+					}
+				}
+				pats = append(pats, ":pattern ("+strings.Join(ts, " ")+")")
+			}
+			return vBool("(" + e.Op + " (" + strings.Join(binds, " ") + ") (! " + body + " " + strings.Join(pats, " ") + "))")
+		}
 		return vBool("(" + e.Op + " (" + strings.Join(binds, " ") + ") " + body + ")")
 	case "typeis":
 		a := c.eval(e.Args[0])
@@ -751,6 +765,21 @@ func (c *EvalCtx) evalCall(e *Expr) *V {
 		}
 		ref := c.refOf(c.eval(e.Args[0]), e.Args[0])
 		return &V{K: KMapH, L2: &mapHandle{fam: "syncmap", ref: ref, kt: kt, vt: vt, sync: true}}
+	case "holdsType":
+		// holdsType(x.m, key, "T"): the sync.Map entry for key holds a value of dynamic type T
+		argc(3)
+		{
+			if e.Args[2].Op != "str" {
+				c.fail("holdsType(x.m, key, \"Type\")")
+			}
+			ref := c.refOf(c.eval(e.Args[0]), e.Args[0])
+			k := c.eval(e.Args[1])
+			t := c.resolveType(e.Args[2].Str)
+			if t == nil {
+				c.fail("unknown type %q", e.Args[2].Str)
+			}
+			return vBool(sEq(selN(st.comp("syncmap#vtag", 2, "Int"), []string{ref, c.keyTerm(k, e.Args[1])}), eng.typeID(t)))
+		}
 	case "seen":
 		// seen(n, k): key k has been visited by callback loop n
 		argc(2)
